@@ -2,6 +2,12 @@ use crate::engine::{Ctx, Stats, Violation};
 use serde_json::Value;
 
 pub mod c01;
+pub mod c02;
+pub mod c03;
+pub mod c04;
+pub mod c06;
+pub mod c08;
+pub mod c10;
 
 pub struct Prop {
     pub id: &'static str,
@@ -20,6 +26,13 @@ const COMMON_ASSUMPTIONS: &[&str] = &[
 pub fn lookup(id: &str) -> Option<Prop> {
     Some(match id {
         "C01" => Prop { id: "C01", run: c01::run, replay: c01::replay, rule: c01::RULE, assumptions: COMMON_ASSUMPTIONS },
+        "C02" => Prop { id: "C02", run: c02::run, replay: c02::replay, rule: c02::RULE, assumptions: COMMON_ASSUMPTIONS },
+        "C03" => Prop { id: "C03", run: c03::run, replay: c03::replay, rule: c03::RULE, assumptions: COMMON_ASSUMPTIONS },
+        "C04" => Prop { id: "C04", run: c04::run_c04, replay: c04::replay_c04, rule: c04::RULE_C04, assumptions: COMMON_ASSUMPTIONS },
+        "C05" => Prop { id: "C05", run: c04::run_c05, replay: c04::replay_c05, rule: c04::RULE_C05, assumptions: COMMON_ASSUMPTIONS },
+        "C06" => Prop { id: "C06", run: c06::run, replay: c06::replay, rule: c06::RULE, assumptions: COMMON_ASSUMPTIONS },
+        "C08" => Prop { id: "C08", run: c08::run, replay: c08::replay, rule: c08::RULE, assumptions: COMMON_ASSUMPTIONS },
+        "C10" => Prop { id: "C10", run: c10::run, replay: c10::replay, rule: c10::RULE, assumptions: COMMON_ASSUMPTIONS },
         _ => return None,
     })
 }
